@@ -83,6 +83,10 @@ k("c19_guard_roundtrip", "semaphore::Semaphore::access + Drop for SemaphoreGuard
 k("c19_owned_guard_roundtrip", "semaphore::Semaphore::access_owned + Drop for OwnedSemaphoreGuard", module="semaphore", t=300)
 k("c19_acquire_under_interference_bounded", "semaphore::Semaphore::acquire (counter rewritten at every lock acquisition)", module="semaphore", t=600,
   cls="bounded", bound="at most 2 wake-ups; other threads modelled by havocking the counter whenever the mutex is taken")
+k("c19_acquire_after_wakeups_bounded4", "semaphore::Semaphore::acquire (stubbed Condvar::wait)", module="semaphore", t=900, tier="thorough",
+  cls="bounded", bound="at most 4 wake-ups")
+k("c19_acquire_under_interference_bounded4", "semaphore::Semaphore::acquire (counter rewritten at every lock acquisition)", module="semaphore", t=900,
+  tier="thorough", cls="bounded", bound="at most 4 wake-ups")
 k("c19_acquire_after_wakeups_bounded", "semaphore::Semaphore::acquire (stubbed Condvar::wait)", module="semaphore", t=300,
   cls="bounded", bound="at most 2 wake-ups of Condvar::wait (the unbounded loop is the Verus unit `semaphore`)")
 # ---- transform.rs
@@ -102,7 +106,9 @@ k("c12_hasher_flow", "hasher::FileHasher::hash_file + load_hash + store_hash + c
 for _w in ("remove", "unsafe_rename", "hardlink", "symlink", "unsafe_copy", "mkdirs", "check_can_rename"):
     k("wrapper_" + _w, "dedupe::FsCommand::%s [body refines its contract over std::fs]" % _w, t=600)
 WRAPPERS = ["wrapper_" + _w for _w in ("remove", "unsafe_rename", "hardlink", "symlink", "unsafe_copy", "mkdirs", "check_can_rename")]
-# thorough tier: the same units with the real wrapper bodies inlined (ghost file system at the std::fs level only)
+# NOT USED by any property (measured: out of memory at 24 GB / no result in 40 min, DESIGN F24b): the same units with the
+# real wrapper bodies inlined (ghost file system at the std::fs level only). The modular route - wrapper refinement units +
+# callers against the wrapper contracts - decides the same obligations.
 for _h, _f in (("c05_safe_remove_std", "safe_remove"), ("c05_execute_remove_std", "execute [Remove]"),
                ("c05_execute_hardlink_std", "execute [HardLink]"), ("c05_execute_softlink_std", "execute [SoftLink]"),
                ("c05_linux_reflink_std", "linux_reflink"), ("c05_execute_reflink_std", "execute [RefLink]"),
@@ -136,7 +142,7 @@ GHOST_FS_TRUST = [
 
 PROPS = {
     "C05": dict(
-        kani=C05_FAMILY + C18_FAMILY + WRAPPERS + STD_C05 + STD_C18,
+        kani=C05_FAMILY + C18_FAMILY + WRAPPERS + ["c05_safe_remove_std", "c05_execute_remove_std"],
         verus=[],
         prefixes=["C05.", "C02.execute_frame."],
         category="proof",
@@ -154,7 +160,7 @@ PROPS = {
         design_ref="DESIGN.md §5 C20",
     ),
     "C18": dict(
-        kani=C18_FAMILY + ["wrapper_check_can_rename", "wrapper_unsafe_copy", "wrapper_unsafe_rename", "wrapper_remove", "wrapper_mkdirs"] + STD_C18,
+        kani=C18_FAMILY + ["wrapper_check_can_rename", "wrapper_unsafe_copy", "wrapper_unsafe_rename", "wrapper_remove", "wrapper_mkdirs"],
         verus=[],
         prefixes=["C18.", "C05.", "C02.execute_frame."],
         category="proof",
@@ -162,7 +168,7 @@ PROPS = {
         design_ref="DESIGN.md §5 C18",
     ),
     "C02": dict(
-        kani=C05_FAMILY + C18_FAMILY + WRAPPERS + STD_C05 + STD_C18,
+        kani=C05_FAMILY + C18_FAMILY + WRAPPERS,
         verus=["partition_tail", "dedupe_script", "partition_filters"],
         prefixes=["C02.", "C05.wrapper."],
         category="proof",
@@ -232,7 +238,8 @@ PROPS = {
     ),
     "C19": dict(
         kani=["c19_release", "c19_guard_roundtrip", "c19_owned_guard_roundtrip", "c19_acquire_after_wakeups_bounded",
-              "c19_acquire_under_interference_bounded"],
+              "c19_acquire_under_interference_bounded", "c19_acquire_after_wakeups_bounded4",
+              "c19_acquire_under_interference_bounded4"],
         verus=["semaphore"],
         prefixes=["C19."],
         category="proof",
